@@ -16,7 +16,7 @@
    below are proved for those histories too (same statements: "timed out" = the attempt's context
    was done, the stored error is context.DeadlineExceeded in that case as well);
    [ants_cancelled_parent_outcome] adds what is specific to them. *)
-From Got Require Import Base Ants AntsProofs AntsCancelProofs.
+From Got Require Import Base Ants AntsProofs AntsCancelProofs AntsGetters AntsGettersProofs.
 Local Open Scope Z_scope.
 
 (* <= R handler invocations per task, each for a distinct attempt number in [1, R]; when the
@@ -190,3 +190,24 @@ Proof.
   destruct ants_cancelled_parent_witness_l as (s & H1 & H2 & H3 & H4 & H5 & H6 & _ & H8 & H9 & _).
   exists s. repeat split; try assumption. vm_compute. tauto.
 Qed.
+
+(* The other entry points of the Task interface (task.go; models/AntsGetters.v): Get1() is Get2() with the
+   error dropped, Err() returns the err field without waiting.  In every reachable state, for every task:
+   a Get1 / Get2 call returns iff run() has returned (wg.Done) or the task was discarded -- so Get1 unblocks
+   exactly when Get2 does --; when they return, Get1 gives the first component of Get2's pair and Err() the
+   second; every read made so far by a waiting call returned that same pair (so the entry points agree with
+   each other and over time); for a discarded task the pair is (nil, errDiscard); and the returning call is
+   the machine's AnGet2 step, which the theorems above speak about. *)
+Theorem ants_getters_agree :
+  forall cfg evs s k,
+    an_fixed cfg -> an_run cfg an_init evs = Some s ->
+    let t := an_tk s k in
+    (an_call_get2 s k <> None <-> at_phase t = AnDone \/ at_phase t = AnDiscarded) /\
+    (an_call_get1 s k <> None <-> an_call_get2 s k <> None) /\
+    (forall p, an_call_get2 s k = Some p ->
+       an_call_get1 s k = Some (fst p) /\ an_call_err s k = snd p /\
+       (forall g, In g (at_get2 t) -> fst g = p) /\
+       (at_phase t = AnDiscarded -> p = (None, AnDiscard)) /\
+       exists s', an_step cfg s (AnGet2 k) = Some s' /\ at_get2 (an_tk s' k) = (p, an_now s) :: at_get2 t).
+Proof. exact ants_getters_agree_l. Qed.
+Print Assumptions ants_getters_agree.
